@@ -89,14 +89,16 @@ def gen_project(at, dt):
         M["cb"]["cd"] = "m"
         sheet("Transitions", [["Transition Matrix"] + names] + [[a] + [M[a][b] for b in names] for a in names])
         sheet("Characteristics", [["Code Name", "Display Name", "Components", "Denominator", "Default Value", "Setup Weight", "Databook Page"], ["alive", "Ch alive", "ca, cb", None, 0, 0, None]])
-        sheet("Parameters", [["Code Name", "Display Name", "Format", "Timescale", "Default Value", "Minimum Value", "Maximum Value", "Function", "Databook Page", "Targetable"],
+        sheet("Parameters", [["Code Name", "Display Name", "Format", "Timescale", "Default Value", "Minimum Value", "Maximum Value", "Function", "Databook Page", "Targetable", "Is Derivative"],
                              ["base", "P base", None, None, 0.3, None, None, None, "pa", "n"],
                              ["qual", "P qual", None, None, None, 0, 3, "2*base", None, "y"],
                              ["share", "P share", None, None, None, None, None, "0.5*cb/max(alive,1)", None, "y"],
                              ["dataout", "P dataout", None, None, 0.25, None, 0.9, None, "pa", "y"],
                              ["r", "P r", "probability", 1, 0.1, 0, 1, None, "pa", "y"],
                              ["n", "P n", "number", 1, 5, 0, None, None, "pa", "y"],
-                             ["m", "P m", "rate", 1, 0.2, 0, 1.5, None, "pa", "y"]])
+                             ["m", "P m", "rate", 1, 0.2, 0, 1.5, None, "pa", "y"],
+                             # a derivative parameter (its function gives the rate of change per year, the databook the initial value) targeted by a program
+                             ["dv", "P dv", "probability", 1, 0.1, 0, 0.4, "0*base", "pa", "y", "y"]])
         sheet("Cascades", [["Cascade", "Constituents"], ["Alive", "alive"], ["B", "cb"]])
         wb.close()
         Fw = at.ProjectFramework(sc.Spreadsheet(f))
@@ -120,6 +122,7 @@ def gen_project(at, dt):
         pg.covouts[("dataout", "p0")] = Covout("dataout", "p0", {"P1": 1.5}, baseline=0.125)
         pg.covouts[("n", "p0")] = Covout("n", "p0", {"P2": 0.5}, baseline=0.0)
         pg.covouts[("r", "p0")] = Covout("r", "p0", {"P1": 0.5, "P2": 0.25}, baseline=0.0625)
+        pg.covouts[("dv", "p0")] = Covout("dv", "p0", {"P1": 0.12}, baseline=0.0)
         _GEN["fw"] = (Fw, D, pg)
     Fw, D, pg = _GEN["fw"]
 
@@ -159,6 +162,19 @@ def check_run(at, P, ps, pg, make_ins, label, records, index, rid, V):
             targeted.add((par_name, pop_name))
             par = m.get_pop(pop_name).get_par(par_name)
             if par.derivative:
+                # the program sets the rate of change (per year) of a derivative parameter: next value = value + outcome * dt, within the limits
+                if ti < T - 1:
+                    lo, hi = (par.limits if par.limits is not None else (None, None))
+                    haslo = lo is not None and np.isfinite(lo)
+                    hashi = hi is not None and np.isfinite(hi)
+                    x0, x1 = float(par.vals[ti]), float(par.vals[ti + 1])
+                    if not (np.isfinite(x0) and np.isfinite(x1) and np.isfinite(outcome)):
+                        V.violation("C13 non-finite targeted parameter", dict(label=label, par=par_name, pop=pop_name, ti=ti, val=[x0, x1], outcome=outcome))
+                        continue
+                    records.append(dict(id=rid, kind="deriv", x0=FX.fix(x0), x1=FX.fix(x1), outcome=FX.fix(outcome), dt=FX.fix(dt), lo=FX.fix(lo if haslo else 0.0), hi=FX.fix(hi if hashi else 0.0),
+                                        haslo=bool(haslo), hashi=bool(hashi)))
+                    index[rid] = dict(label=label, what="derivative parameter under a program: next value = value + outcome * dt", par=par_name, pop=pop_name, ti=ti, dt=dt, x0=x0, x1=x1, outcome=outcome, limits=[lo, hi])
+                    rid += 1
                 continue
             units = str(par.units).lower()
             n = 0.0
